@@ -262,3 +262,42 @@ def build5(m):
                             # CommonMark 6.7: hard iff two or more spaces or a backslash precede the line ending
                             ("self.soft == (not (m_group(match, 1).startswith('  ') or m_group(match, 1).startswith('\\\\')))", ['C09', 'C02', 'C10'])],
                    modifies=['self.content', 'self.soft'], prop=['C09', 'C02']))
+
+
+def build6(m):
+    """Heading / SetextHeading / Paragraph constructors (C12: level 1-6 resp. 1-2; C09: underline and
+    closing sequence retained; C14 / C03: the paragraph text handed to the inline phase is the lines
+    with leading spaces/tabs stripped)."""
+    BT = 'mistletoe.block_token'
+    ST = 'mistletoe.span_token'
+    m.namespaces.setdefault(ST, {})['tokenize_inner'] = ('const', mk_obj('funcref', 'span_token.tokenize_inner'))
+    LEAF = TRef('LeafBlock')
+    m.classes['LeafBlock'] = {'children': TList(TOK), 'level': INT, 'closing_sequence': STR, 'underline': STR, 'g_content': STR}
+    m.methods[('BlockToken', '__init__')] = BT + ':BlockToken.__init__'
+    m.add(Contract(BT + ':BlockToken.__init__', [('self', LEAF), ('lines', STR), ('tokenize_func', TObj('funcref'))],
+                   trusted=True, ensures=['self.g_content == lines'],
+                   modifies=['self.children', 'self.g_content', 'G:INLINE_PHASE', 'N:Token.line_number', 'N:Token.children'],
+                   may_raise=['CustomTokenError'],
+                   note='BlockToken.__init__(content, tokenize_func) runs the inline phase on the content (children = '
+                        'tokenize_func(content)); the ghost field g_content records the content it was given'))
+    for c in ('Heading', 'SetextHeading', 'Paragraph'):
+        m.subclass_of[c] = 'BlockToken'
+    m.add(Contract(BT + ':Heading.__init__', [('self', LEAF), ('match', TTuple([INT, STR, STR]))],
+                   ensures=[('self.level == match[0] and self.closing_sequence == match[2]', ['C09', 'C12']),
+                            ('self.g_content == match[1]', ['C09', 'C14'])],
+                   modifies=['self.level', 'self.closing_sequence', 'self.children', 'self.g_content', 'G:INLINE_PHASE',
+                             'N:Token.line_number', 'N:Token.children'],
+                   allow_exc=['CustomTokenError'], prop=['C09', 'C12']))
+    m.methods[('Heading', '__init__')] = BT + ':Heading.__init__'
+    m.add(Contract(BT + ':SetextHeading.__init__#fields', [('self', LEAF), ('lines', TList(STR))],
+                   requires=['len(lines) >= 2'],
+                   ensures=[('self.underline == old(lines)[len(old(lines)) - 1].rstrip()', 'C09'),
+                            # C12: a setext heading has level 1 (underline of =) or 2
+                            ("self.level == (1 if self.underline.endswith('=') else 2)", ['C12', 'C08', 'C09']),
+                            ('1 <= self.level and self.level <= 2', ['C12', 'C08'])],
+                   modifies=['self.underline', 'self.level', 'self.children', 'self.g_content', 'G:INLINE_PHASE',
+                             'N:Token.line_number', 'N:Token.children'],
+                   allow_exc=['CustomTokenError'], prop=['C09', 'C12']))
+    m.add(Contract(BT + ':Paragraph.__init__', [('self', LEAF), ('lines', TList(STR))],
+                   modifies=['self.children', 'self.g_content', 'G:INLINE_PHASE', 'N:Token.line_number', 'N:Token.children'],
+                   allow_exc=['CustomTokenError'], prop=['C01']))
